@@ -37,6 +37,7 @@ type Prog struct {
 	ifaceContracts map[string]*FuncContract
 	lockMaps   map[string]bool
 	sentinelOK map[*ssa.Global]bool
+	sentinelText map[string]string
 	lockReqs   map[*ssa.Function][]lockReq
 	monotone   map[string]*GuardDecl // "typeName.field"
 	anchorErrs []anchorErr
